@@ -226,10 +226,36 @@ Lemma sha_check_full_equality : forall is512 pw hv,
         (if is512 then MAP_SHA512 else MAP_SHA256)
     = firstn (if is512 then 64 else 32)%nat (d ++ repeat 0 (if is512 then 64 else 32)%nat).
 Proof.
-  intros is512 pw hv H. unfold sha_check in H.
-  destruct (sha_prepare is512 hv) as [| |salt r d]; try discriminate.
+  intros is512 pw hv H. unfold sha_check, sha_check_gen in H. unfold sha_prepare.
+  destruct (sha_prepare_gen tree_fixed is512 hv) as [| |salt r d]; try discriminate.
   exists salt, r, d. split; [reflexivity|]. apply VOk_inj in H. now apply beqb_true_iff in H.
 Qed.
+
+(* the fix a666989 only removes behaviour: whatever the fixed check accepts, the pre-fix check
+   accepted too; and it differs from the pre-fix check only on strings whose last '$'-field is
+   not a canonical 43-character sha256-crypt hash *)
+Lemma fix_only_restricts : forall is512 pw hv,
+  sha_check_gen true is512 pw hv = VOk true -> sha_check_gen false is512 pw hv = VOk true.
+Proof.
+  intros is512 pw hv H. unfold sha_check_gen, sha_prepare_gen in *.
+  destruct (true && negb is512 && negb (sha256_field_ok hv)); [discriminate H|].
+  cbn [andb]. exact H.
+Qed.
+Lemma fix_same_on_canonical : forall is512 pw hv,
+  is512 = true \/ sha256_field_ok hv = true ->
+  sha_check_gen true is512 pw hv = sha_check_gen false is512 pw hv.
+Proof.
+  intros is512 pw hv H. unfold sha_check_gen, sha_prepare_gen.
+  replace (true && negb is512 && negb (sha256_field_ok hv)) with false; [reflexivity|].
+  destruct H as [-> | ->]; [reflexivity | now destruct is512].
+Qed.
+(* the defect of the originally pinned tree, and its repair, on the string the harness confirmed *)
+Lemma prefix_panics :
+  let hv := str "$5$rounds=1000$saltsalt$***" in
+  sha_check_gen false false (str "password") hv = VPanic /\
+  sha_check_gen true false (str "password") hv = VOk false /\
+  sha_check_gen false true (str "password") (str "$6$rounds=1000$saltsalt$***") = VOk false.
+Proof. vm_compute. repeat split; reflexivity. Qed.
 
 (* ------------------------------------------------------------------ verdict = indep_accepts *)
 Lemma verdict_is_indep : forall argon g pw0 d0 pw,
